@@ -41,6 +41,13 @@ def flag_guards(body, bb):
 def run(ctx):
   F = ctx.facts
   T = TableId(F)
+
+  ctx.rule('R15.3', 'without a full UTXO index the values of spent outputs come from the fetcher thread: the i-th fetched transaction is matched with the i-th requested outpoint, where i counts across all chunks of results '
+           '(enumerate applied after flatten / flat_map, and the same index selects outpoints[i])')
+  ctx.rule('R15.4', 'with the sat index the lost-sat count that the next block\'s inscription updater starts from is the running sum over all lost ranges (so that it equals the count kept without the sat index): the obligations of C01 R1.5')
+  _r15_3(ctx)
+  from .C01 import lost_sats_for
+  lost_sats_for(ctx, 'R15.4')
   ctx.rule('R15.1', 'no write to an inscription or rune table in the updaters can be bypassed or enabled by a branch on index_sats / index_addresses / index_transactions / presence of sat ranges '
            '(reviewed exceptions: the optional and sat-derived tables themselves)')
   ctx.rule('R15.2', 'the calls of InscriptionUpdater::index_inscriptions and RuneUpdater::index_runes are gated by index_inscriptions / index_runes (and the first rune height) only')
@@ -78,3 +85,29 @@ NEUTRAL = [
   {'name': 'commit: satpoint literal inlined', 'file': 'src/index/updater.rs', 'old': '            let satpoint = SatPoint { outpoint, offset };\n            sequence_number_to_satpoint.insert(sequence_number, &satpoint.store())?;', 'new': '            sequence_number_to_satpoint.insert(sequence_number, &SatPoint { outpoint, offset }.store())?;'},
   {'name': 'inscription number: arms swapped under !cursed', 'file': 'src/index/updater/inscription_updater.rs', 'old': '        let inscription_number = if cursed {\n          let number: i32 = self.cursed_inscription_count.try_into().unwrap();\n          self.cursed_inscription_count += 1;\n          -(number + 1)\n        } else {\n          let number: i32 = self.blessed_inscription_count.try_into().unwrap();\n          self.blessed_inscription_count += 1;\n          number\n        };', 'new': '        let inscription_number = if !cursed {\n          let number: i32 = self.blessed_inscription_count.try_into().unwrap();\n          self.blessed_inscription_count += 1;\n          number\n        } else {\n          let number: i32 = self.cursed_inscription_count.try_into().unwrap();\n          self.cursed_inscription_count += 1;\n          -(number + 1)\n        };'},
 ]
+
+
+def _r15_3(ctx):
+  from ..facts import origins
+  from .common import deep_origins
+  F = ctx.facts
+  fam = [b for b in F.family('ord::index::updater::Updater::spawn_fetcher') if any(c.is_('re:Sender.*::send$') for c in b.calls)]
+  if not ctx.anchor('R15.3', 'fetcher body that sends outputs back (txout_sender.send)', len(fam) >= 1, 'ord::index::updater::Updater::spawn_fetcher'):
+    return
+  for b in fam:
+    ctx.analysed(b)
+    for c in [c for c in b.calls if c.is_('re:Sender.*::send$')]:
+      oo = deep_origins(b, c.args[1], all_args=True)
+      nexts = [o.call for o in oo if o.kind == 'call' and o.call.is_('re:Enumerate as std::iter::Iterator>::next$')]
+      ok = False
+      msg = f'{len(nexts)} enumerate() sources'
+      if len({x.bb for x in nexts}) == 1:
+        nx = nexts[0]
+        chain = {o.call.name.split('::')[-1] for o in deep_origins(b, nx.args[0], all_args=True) if o.kind == 'call' and o.call.name}
+        flat = bool(chain & {'flatten', 'flat_map'})
+        # both the transaction and the index into `outpoints` come from that one next()
+        idx_calls = [x for x in b.calls if x.is_('re:Index.*>::index$') and 'outpoints' in {o.name for o in origins(b, x.args[0], named_terminal=True)}]
+        same = bool(idx_calls) and all(any(o.kind == 'call' and o.call.bb == nx.bb for o in deep_origins(b, x.args[1], all_args=True)) for x in idx_calls)
+        ok = flat and same
+        msg = f'enumerate over {sorted(chain)}; outpoints[..] indexed by it: {same}'
+      ctx.ob('R15.3', b.n, 'the fetched output sent back is tx.output[outpoints[i].vout] with i counting across all result chunks', ok, msg, where(b, c.line))
